@@ -140,15 +140,32 @@ def callback(h, which="revolute", seed=0):
     h.eq("g_dot unchanged by step_callback", np.atleast_1d(sysm.g_dot(t, q1, u1)), gd0)
 
 
-def scipy_ivp(h, seed=0):
+def scipy_ivp(h, seed=0, forces=False):
     from cardillo.solver import ScipyIVP
     if h.sym:
         from symx import shims
         shims.LU_MODE[0] = "cramer"
-    sysm, b, j = build(h, "distance", seed)
+    if forces:
+        # rigid body on a revolute joint with a motor (W_tau la_tau), a compliance-form rotational spring (W_c la_c) and an external force;
+        # concrete (exact rational) configuration, symbolic velocity / motor torque / stiffness / force
+        from cardillo.forces import Force
+        from cardillo.force_laws import Spring
+        from cardillo.actuators import Motor
+
+        def extra(rp):
+            els = [Force(h.vec("F", 3), rp.b, B_r_CP=np.array([0.25, 0.0, 0.125])), Motor(rp.joint, h.real("tau")),
+                   Spring(rp.joint, h.pos("kc"), l_ref=-0.25, compliance_form=True, name="s_compl")]
+            els[1].name = "motor"
+            return els
+        rp = lib.RevolutePair(h, seed=seed, axis=2, first="F", extra=extra)
+        sysm, b, j = lib.assemble(rp.sysm), rp.b, rp.joint
+    else:
+        sysm, b, j = build(h, "distance", seed)
     with h.capture():
         sol = ScipyIVP(sysm, 1.0, 0.1)
     t, q, u = _state(h, sysm, b)
+    if forces:
+        q = np.array(sysm.q0, dtype=float)
     if h.sym:
         from symx import shims
         sysm._M0 = shims.SymMat(np.asarray(sysm._M0.toarray(), dtype=object))
@@ -159,7 +176,11 @@ def scipy_ivp(h, seed=0):
         ud, la_g, la_gamma, la_c = sol.la_g_la_gamma_la_c(t, q, u)
     M = np.asarray(sysm.M(t, q).toarray())
     W = np.asarray(sysm.W_g(t, q).toarray())
-    h.eq("reported accelerations satisfy the equations of motion", M @ ud, sysm.h(t, q, u) + W @ la_g)
+    rhs = sysm.h(t, q, u) + W @ la_g
+    if forces:
+        rhs = rhs + np.asarray(sysm.W_tau(t, q).toarray()) @ sysm.la_tau(t, q, u) + np.asarray(sysm.W_c(t, q).toarray()) @ la_c
+        h.eq("reported la_c is the compliance force", sysm.c(t, q, u, la_c), np.zeros(sysm.nla_c))
+    h.eq("reported accelerations satisfy the equations of motion", M @ ud, rhs)
     h.eq("reported accelerations satisfy the acceleration-level constraints", np.atleast_1d(sysm.g_ddot(t, q, u, ud)), np.zeros(sysm.nla_g))
 
 
@@ -173,4 +194,5 @@ def cases(tier, seed):
         if which != "distance":
             cs.append(Case(f"step_callback/{which}", callback, dict(which=which, seed=seed), timeout=T))
     cs.append(Case("scipy_ivp/distance", scipy_ivp, dict(seed=seed), timeout=T))
+    cs.append(Case("scipy_ivp/revolute+actuator+compliance", scipy_ivp, dict(seed=seed, forces=True), timeout=T, hard=T * 8))
     return cs
